@@ -217,7 +217,7 @@ func (c *caseRun) crashReopen(variant string, sp batchSpec, st *hlib.Stats) {
 	c.live = nil
 	c.gen++
 	c.w = nil
-	c.nblocked++ // an abandoned writer: its handles are released whenever it gets there, no balance to check
+	c.abandonHandlesLocked() // the abandoned writer releases its handles whenever it gets there: a new balance starts
 	c.imgSeq++
 	newDir := filepath.Join(c.work, fmt.Sprintf("idx_crash%d", c.gen))
 	_ = os.RemoveAll(newDir)
